@@ -596,4 +596,75 @@ theorem hetero_examples :
   set_option synthInstance.maxSize 4000 in
   decide +kernel
 
+/-- **the calls the learner object sees under batching.**  For every configuration, every learner (with or without
+`score`, accepting batched arguments or not), every shape of its first answer (`width`) and every split of the environment
+into batches whose first batch is non-empty (`Batch(n)` for any n, ragged last batch included), a learner that `evaluate`
+wraps afresh receives a call sequence (`rawRun … {}`) such that
+(1) read row-wise — refused batch attempts and the orientation probe carry nothing, an accepted batch call is one call per
+row — it is exactly the loop skeleton: batch by batch, method by method (`phasesOf`: predict? score? learn?), row by row;
+(2) the only surplus predict is `batch_order`'s orientation probe: exactly one when the learner accepts batches, a
+prediction is made and the first answer is as wide as the first batch has rows (finding C06-F2), none otherwise;
+(3) a learner refusing batched arguments sees exactly one refused batch-level attempt per method the loop uses (all in the
+first batch), a batch-accepting one none. -/
+theorem calls_seen_by_learner_batched (c : Config) (hasScore aware : Bool) (width : Option Nat) (i : Nat) (t : List Nat)
+    (rest : List (List Nat)) :
+    rowLevel (rawRun true aware width (phasesOf c hasScore) {} ((i :: t) :: rest))
+      = skeleton (phasesOf c hasScore) ((i :: t) :: rest) ∧
+    countOrient (rawRun true aware width (phasesOf c hasScore) {} ((i :: t) :: rest))
+      = (if aware && shouldPred c hasScore && (width == some (t.length + 1)) then 1 else 0) ∧
+    countRefused (rawRun true aware width (phasesOf c hasScore) {} ((i :: t) :: rest))
+      = (if aware then 0 else (phasesOf c hasScore).length) :=
+  calls_seen_by_learner_batched' c hasScore aware width i t rest
+
+/-- the row-level reading is the loop skeleton from ANY wrapper state (a `SafeLearner` handed to `evaluate` is re-wrapped,
+but the statement does not need it), batched or not, for any list of methods -/
+theorem calls_seen_row_level (batched aware : Bool) (width : Option Nat) (phases : List Meth) (st : SafeSt) (cs : List (List Nat)) :
+    rowLevel (rawRun batched aware width phases st cs) = skeleton phases cs :=
+  rowLevel_rawRun' batched aware width phases st cs
+
+/-- un-batched: the learner object sees exactly the loop's calls, one plain call each — no refused attempt, no probe -/
+theorem calls_seen_by_learner_unbatched (aware : Bool) (width : Option Nat) (phases : List Meth) (st : SafeSt) (cs : List (List Nat)) :
+    rawRun false aware width phases st cs = cs.flatMap (fun ch => phases.flatMap (fun m => ch.map (RawCall.row m))) :=
+  calls_seen_by_learner_unbatched' aware width phases st cs
+
+/-- a settled wrapper (every method's call discipline decided, first answer parsed) never probes and is never refused again -/
+theorem calls_seen_settled {aware : Bool} {phases : List Meth} {st : SafeSt} (hs : Settled aware phases st)
+    (width : Option Nat) (cs : List (List Nat)) :
+    countOrient (rawRun true aware width phases st cs) = 0 ∧ countRefused (rawRun true aware width phases st cs) = 0 :=
+  settled_rawRun hs width cs
+
+/-- kernel-evaluated instances: the default evaluator on 3 interactions in `Batch(2)`, learner with `score`.
+Batch-accepting learner answering `(action, probability)` rows (width 2 = batch size): two `has_score` probes, the batch
+predict, THE ORIENTATION PROBE on interaction 0, the batch learn, then the last batch.  Batch-refusing learner: one refused
+attempt per method, then row by row. -/
+example : callsSeen { learn := .on, eval := .on, record := defaultRecord } true true (some 2) (some 2) 3 false
+    = [.scoreProbe, .scoreProbe, .batch .predict [0, 1] true, .orient 0, .batch .learn [0, 1] true,
+       .batch .predict [2] true, .batch .learn [2] true] := by decide +kernel
+example : callsSeen { learn := .on, eval := .on, record := defaultRecord } false false (some 2) (some 2) 3 false
+    = [.batch .predict [0, 1] false, .row .predict 0, .row .predict 1, .batch .learn [0, 1] false, .row .learn 0, .row .learn 1,
+       .row .predict 2, .row .learn 2] := by decide +kernel
+example : Settled true [.predict, .learn] { mPredict := some true, mLearn := some true, parsed := true } := by
+  refine ⟨?_, fun _ => rfl⟩
+  intro m hm
+  cases m <;> simp_all [SafeSt.get]
+
+/-- **translator obligation (small bodies).**  The record-construction code of `SequentialCB._results`, extracted from the source
+under test as a program (`Generated.C06.flagDefs`: the `out_x = '<name>' in self._record [and guard]` definitions;
+`Generated.C06.rowProgram`: every `if <conjunction>: out['<key>'] = …` of the loop body, in order) and run by the interpreter
+`progKeys`, yields for every configuration, flags, `should_pred`, batching and probability-presence exactly the timing cells
+(`timeKeys`: presence only) followed by the model's `recordKeys` — the function `record_fields_per_mode` is about.
+`'ope_loss'` is excluded: the constructor refuses it without vowpalwabbit. -/
+theorem record_program_matches (c : Config) (fl : Flags) (sp batched hasPr : Bool) (hop : c.rcd "ope_loss" = false) :
+    progKeys Coba.Generated.C06.flagDefs Coba.Generated.C06.rowProgram c fl sp batched hasPr
+      = timeKeys c ++ recordKeys c fl sp batched hasPr :=
+  record_program_matches' c fl sp batched hasPr hop
+
+/-- the hypothesis is met by the default `record`; the program run in the kernel on it (learn='on', eval='on') -/
+example : ({ learn := .on, eval := .on, record := defaultRecord } : Config).rcd "ope_loss" = false := by decide
+example : progKeys Coba.Generated.C06.flagDefs Coba.Generated.C06.rowProgram
+    { learn := .on, eval := .on, record := "time" :: defaultRecord }
+    { hasContext := true, hasActions := true, hasRewards := true, hasReward := false, hasAction := false, hasProb := false,
+      discrete := true, rwdsIsList := true } true false true
+    = ["predict_time", "learn_time", "action", "reward", "probability"] := by decide
+
 end Coba.C06
